@@ -302,9 +302,9 @@ fn programs(ctx: &mut Ctx, src: Src) {
             s.nb.insert("a".into(), SItem::Name("a".into()));
             s.nb.insert("b".into(), SItem::List(vec![SItem::Name("c".into()), SItem::Name("b".into())]));
         }
-        s.cfg.eval_push_limit = *r.pick(&[0, 1, 10, 200, 1000, 3000]);
+        s.cfg.eval_push_limit = *r.pick(&[-1, i32::MIN, 0, 1, 10, 200, 1000, 3000]);
         s.cfg.eval_time_limit = 20_000;
-        s.cfg.growth_cap = *r.pick(&[0, 1, 5, 50, 500, 100000]);
+        s.cfg.growth_cap = *r.pick(&[0, 1, 5, 50, 500, 100000, usize::MAX, usize::MAX - 1]);
         let mut st = build_state(&s);
         let prog_text;
         match src {
